@@ -221,9 +221,10 @@ def _alarm(signum, frame):
 
 
 def run_case(case: dict, ops: list, drain=None, preload: bool = False, built: dict | None = None, cap: int = 400000,
-             deadline: float = 300.0):
+             deadline: float = 300.0, after=None):
     """Execute `ops` ([(op, n)]) on a fresh response for `case`; then, unless a call ended or raised, keep
-    calling `drain` (op, n) until one does.  Returns the trace record for spec/Body_Trace.tla."""
+    calling `drain` (op, n) until one does; then, if the body ended normally, make the `after` calls (which must
+    all return b"").  Returns the trace record for spec/Body_Trace.tla."""
     import signal
     import threading
     s = Session(case, built)
@@ -256,6 +257,10 @@ def run_case(case: dict, ops: list, drain=None, preload: bool = False, built: di
                             break
                         empties = empties + 1 if e["len"] == 0 else 0
                         if empties >= 3:          # a generator that keeps yielding b"": already a violation
+                            break
+                if after and s.events and s.events[-1]["end"] and not any(e["err"] for e in s.events):
+                    for op, n in after:
+                        if s.step(op, n)["err"]:
                             break
         conn = s.connection_facts()
         b = s.b
